@@ -670,13 +670,15 @@ func hasHeader(rawMsg string, fieldName string) bool {
 	return false
 }
 
-func headerContains(rawMsg string, fieldName string, searchStr string) bool {
+// headerFieldValues returns the value of every occurrence of a header field,
+// unfolded (RFC 5322 section 2.2.3: the line break before a continuation line
+// is removed, its white space is kept)
+func headerFieldValues(rawMsg string, fieldName string) []string {
 	lines := strings.Split(rawMsg, "\n")
 	fieldNameUpper := strings.ToUpper(fieldName)
-	searchStrUpper := strings.ToUpper(searchStr)
 
+	var values []string
 	inTargetHeader := false
-	var headerValue strings.Builder
 
 	for _, line := range lines {
 		line = strings.TrimRight(line, "\r")
@@ -685,10 +687,9 @@ func headerContains(rawMsg string, fieldName string, searchStr string) bool {
 		}
 
 		// Check if this is a continuation line (starts with space or tab)
-		if len(line) > 0 && (line[0] == ' ' || line[0] == '\t') {
+		if line[0] == ' ' || line[0] == '\t' {
 			if inTargetHeader {
-				headerValue.WriteString(" ")
-				headerValue.WriteString(strings.TrimSpace(line))
+				values[len(values)-1] += line
 			}
 			continue
 		}
@@ -696,16 +697,27 @@ func headerContains(rawMsg string, fieldName string, searchStr string) bool {
 		// New header line
 		if strings.HasPrefix(strings.ToUpper(line), fieldNameUpper+":") {
 			inTargetHeader = true
-			colonIdx := strings.Index(line, ":")
-			if colonIdx != -1 {
-				headerValue.WriteString(strings.TrimSpace(line[colonIdx+1:]))
-			}
+			values = append(values, line[strings.Index(line, ":")+1:])
 		} else {
 			inTargetHeader = false
 		}
 	}
 
-	return strings.Contains(strings.ToUpper(headerValue.String()), searchStrUpper)
+	return values
+}
+
+// headerContains reports whether some occurrence of the header field contains
+// the search string (case-insensitively) in its value. Repeated fields
+// (Received, X-...) are matched one by one, not on their concatenation.
+func headerContains(rawMsg string, fieldName string, searchStr string) bool {
+	searchStrUpper := strings.ToUpper(searchStr)
+
+	for _, value := range headerFieldValues(rawMsg, fieldName) {
+		if strings.Contains(strings.ToUpper(value), searchStrUpper) {
+			return true
+		}
+	}
+	return false
 }
 
 func matchesSize(msg messageInfo, size int, larger bool, userID int64, deps ServerDeps) bool {
